@@ -63,6 +63,9 @@ C03_OwnOutcome(r) == (Landed(r) /\ r.scn.target_finished = "T" /\ Dead(r) /\ NRe
 C03_NothingElse(r) == (Landed(r) /\ r.scn.target_started = "T" /\ Dead(r) /\ NReads(r) >= 1) =>
                          \/ WTEShape(Rd(r, 1))
                          \/ OwnShape(r, Rd(r, 1)) /\ (Pers(r) => r.scn.in_work = "F")
+\* a request that arrives before the work has started (the child is initialising, or an idle persistent worker waits for its
+\* first input) ends the worker as a terminated one all the same
+C03_BeforeStart(r) == (Landed(r) /\ r.scn.target_started = "F" /\ r.scn.in_target = "F" /\ Dead(r) /\ NReads(r) >= 1) => WTEShape(Rd(r, 1))
 \* terminate() on a worker whose target finished long ago and that nobody has looked at since: own outcome, True, no harm
 C03_AfterFinish(r) == r.scn.fault = "term_after_finish" =>
                          /\ r.obs.term_ret = "T" /\ r.obs.bystander \in {"ok", "na"}
